@@ -63,6 +63,7 @@ Section Inv.
   Definition iW4 := forall x, terms_le (n_log (nd x)) (n_term (nd x)).
   Definition iW5 := forall x, n_role (nd x) = Leader -> LL s (n_term (nd x)) = n_log (nd x).
   Definition iW7 := forall t, lof s t = None -> LL s t = [].
+  Definition iW8 := forall t l, lof s t = Some l -> LL s t <> [].
   Definition iW9 := forall m, In m (msgs s) -> m_type m = MsgApp ->
       LL s (m_term m) <> [] /\
       firstn (m_index m) (LL s (m_term m)) ++ m_ents m
@@ -73,6 +74,7 @@ Section Inv.
   Definition iW10 := forall m, In m (msgs s) -> m_type m = MsgVote ->
       n_role (nd (m_from m)) = Candidate -> n_term (nd (m_from m)) = m_term m ->
       m_index m = length (n_log (nd (m_from m))) /\ m_logterm m = last_term (n_log (nd (m_from m))).
+  Definition iW12 := forall m, In m (msgs s) -> m_type m = MsgVote -> m_term m <= n_term (nd (m_from m)).
   Definition iW11 := forall x, n_role (nd x) = Candidate -> terms_lt (n_log (nd x)) (n_term (nd x)).
 
   (* ---- K: acknowledgements and commitment *)
@@ -98,7 +100,7 @@ Section Inv.
 
   Record Inv : Prop := mkInv {
     hA1 : iA1; hA2 : iA2; hA3 : iA3; hA4 : iA4; hA5 : iA5; hA6a : iA6a; hA6b : iA6b; hA7 : iA7; hA8 : iA8;
-    hW1 : iW1; hW2 : iW2; hW3 : iW3; hW4 : iW4; hW5 : iW5; hW7 : iW7; hW9 : iW9; hW10 : iW10; hW11 : iW11;
+    hW1 : iW1; hW2 : iW2; hW3 : iW3; hW4 : iW4; hW5 : iW5; hW7 : iW7; hW8 : iW8; hW9 : iW9; hW10 : iW10; hW11 : iW11; hW12 : iW12;
     hK1 : iK1; hK2 : iK2; hK3 : iK3; hK4 : iK4; hK5 : iK5; hK6 : iK6; hK7 : iK7; hK8 : iK8; hK9 : iK9; hK10 : iK10; hK11 : iK11
   }.
   End S.
